@@ -33,14 +33,35 @@ fn alphabet(bars: bool) -> Vec<Op> {
     }
 }
 
-/// finite continuation, different from anything in the histories
+/// finite continuation, different from anything in the histories. Odd salts give a *signed*
+/// continuation whose first input is zero or negative (the first comparison an indicator makes after a
+/// reset is against its initial state, e.g. OBV's "previous close" of 0).
 fn continuation(bars: bool, len: usize, salt: u64) -> Vec<Op> {
+    let signed = salt % 2 == 1;
     if bars {
         let mut g = BarGen::new(BarStyle::Mixed, 1.0, 0xC0FFEE ^ salt);
-        (0..len).map(|_| Op::NextBar(g.next())).collect()
+        (0..len)
+            .map(|i| {
+                let b = g.next();
+                Op::NextBar(if !signed {
+                    b
+                } else if i == 0 && salt % 4 == 1 {
+                    Bar { c: 0.0, l: b.l.min(0.0), ..b }
+                } else if i % 3 != 2 {
+                    b.shift_prices(-45.0)
+                } else {
+                    b
+                })
+            })
+            .collect()
     } else {
         let mut r = Rng::new(0xBEEF ^ salt);
-        (0..len).map(|i| Op::NextF(3.25 + (i as f64) * 0.75 * if i % 3 == 0 { -1.0 } else { 1.0 } + r.f())).collect()
+        (0..len)
+            .map(|i| {
+                let x = 3.25 + (i as f64) * 0.75 * if i % 3 == 0 { -1.0 } else { 1.0 } + r.f();
+                Op::NextF(if !signed { x } else if i == 0 && salt % 4 == 1 { 0.0 } else { x - 6.0 })
+            })
+            .collect()
     }
 }
 
@@ -161,7 +182,7 @@ fn run_enum(ctx: &Ctx) -> Report {
     par_run(jobs, ctx.threads, move |(kind, n, bars, first), rep| {
         let p = param_variants(*kind, *n);
         let alpha = alphabet(*bars);
-        let cont = continuation(*bars, 3 * p.max_period() + 3, *n as u64);
+        let cont = continuation(*bars, 3 * p.max_period() + 3, (*n + *first) as u64);
         // enumerate histories starting with alpha[first]
         fn rec(alpha: &[Op], depth: usize, hist: &mut Vec<Op>, f: &mut dyn FnMut(&[Op])) {
             f(hist);
